@@ -333,6 +333,28 @@ def run(ctx):
                   f.where(), "; ".join("%s %s" % (w, q.show()) for w, q in bad[:3]))
 
 
+def is_negated_delta(amt, D):
+    """amt is the two's-complement negation of D (so that a wrapping add subtracts D): `!(D - 1)`, `D.wrapping_neg()`,
+    `0 - D` / `0u64.wrapping_sub(D)`, casts anywhere"""
+    def sc(e):
+        while isinstance(e, tuple) and e and e[0] == "cast":
+            e = e[1]
+        return e
+    a = sc(amt)
+    D = strip_site(D)
+    def is_d(x):
+        return strip_site(sc(x)) == D
+    if a[0] == "unop" and a[1] == "Not":
+        inner = sc(a[2])
+        return inner[0] == "binop" and inner[1] == "Sub" and is_d(inner[2]) and sc(inner[3])[0] == "const" and sc(inner[3])[1] == 1
+    if a[0] == "call" and a[1].endswith("wrapping_neg") and len(a[2]) == 1:
+        return is_d(a[2][0])
+    if (a[0] == "binop" and a[1] == "Sub") or (a[0] == "call" and a[1].endswith("wrapping_sub") and len(a[2]) == 2):
+        x, y = (a[2], a[3]) if a[0] == "binop" else (a[2][0], a[2][1])
+        return sc(x)[0] == "const" and sc(x)[1] == 0 and is_d(y)
+    return False
+
+
 def check_delta_helper(ctx, g, wadd):
     """update_weight_stats(new, old): new > old => WeightAdded += new - old ; else WeightAdded += f(old - new)
     (decided per symbolic path, whichever way the comparison and the branches are written)"""
@@ -351,7 +373,7 @@ def check_delta_helper(ctx, g, wadd):
                 return False
             ok_gt = True
         else:
-            if not mentions(amt, lambda s_: s_ == ("binop", "Sub", OLD, NEW)):
+            if not is_negated_delta(amt, ("binop", "Sub", OLD, NEW)):
                 return False
             ok_le = True
     return ok_gt and ok_le
@@ -379,7 +401,7 @@ def check_delta_paths(ctx, f, wadd, new, old):
                 return False
             ok_gt = True
         else:
-            if not mentions(amt, lambda s_: strip_site(s_) == ("binop", "Sub", os_, ns)):
+            if not is_negated_delta(amt, ("binop", "Sub", os_, ns)):
                 return False
             ok_le = True
     return ok_gt and ok_le
